@@ -81,8 +81,8 @@ func (c20) Run(t *tape.Tape, tier Tier) *Result {
 		res.Kinds = append(res.Kinds, kindsOf(spec)...)
 	}
 	hs = append(hs, handlerErr{"nil", nil, nil})
-	hs = append(hs, handlerErr{"status", grpcstatus.Error(codes.Code(1+t.Draw(16)), "TKUstatusQ message"), nil})
-	hs = append(hs, handlerErr{"gogostatus", gogostatus.Error(codes.Code(1+t.Draw(16)), "TKUgogoQ message"), nil})
+	hs = append(hs, handlerErr{"status", grpcstatus.Error(codes.Code(1+t.Draw(20)), "TKUstatusQ message"), nil})
+	hs = append(hs, handlerErr{"gogostatus", gogostatus.Error(codes.Code(1+t.Draw(20)), "TKUgogoQ message"), nil})
 	for _, h := range hs {
 		cl.Set(h.id, h.err)
 	}
@@ -136,6 +136,10 @@ func (c20) Run(t *tape.Tape, tier Tier) *Result {
 			got, ok := gogostatus.FromError(r.err)
 			if !ok || got.Code() != want.Code() || got.Message() != want.Message() {
 				res.add(Violation{Prop: "C20", Oracle: "status-passes-through", Culprit: h.id, Expected: fmt.Sprint(want.Code(), " ", want.Message()), Observed: fmt.Sprint(r.err), Where: where})
+			}
+			// "unchanged": exactly what a client without the interceptor receives
+			if a, b := fmt.Sprintf("%T|%v", r.errNo, r.errNo), fmt.Sprintf("%T|%v", r.err, r.err); a != b {
+				res.add(Violation{Prop: "C20", Oracle: "status-passes-through-unchanged", Culprit: h.id, Expected: a, Observed: b, Where: where})
 			}
 		default:
 			if h.spec != nil && h.spec.Size() >= 2 {
@@ -218,8 +222,8 @@ func (c20) Run(t *tape.Tape, tier Tier) *Result {
 func specGrpcCode(n *gen.Node) codes.Code {
 	for n != nil {
 		switch n.K {
-		case gen.WGrpcCode, gen.WStatusWrap, gen.LStatusErr:
-			return codes.Code(1 + n.N[0]%16)
+		case gen.WGrpcCode, gen.WStatusWrap, gen.LStatusErr, gen.LStatusErrf, gen.WStatusWrapf:
+			return gen.Code(n.N[0])
 		}
 		if gen.Info(n.K).Arity != gen.Wrap || len(n.Kids) != 1 {
 			return codes.Unknown
